@@ -82,6 +82,19 @@ class CharStr:
             return SV(z3.And(*[c < 128 for c in self.chars]), "bool") if self.chars else True
         if name == "strip" and not args:
             return Stripped(self)
+        if name in ("strip", "lstrip", "rstrip") and len(args) == 1 and isinstance(args[0], str) and args[0]:
+            # strip(<given characters>): the actual remaining characters, one path per number of characters removed at each end
+            def pred(c):
+                return z3.Or(*[c == ord(x) for x in args[0]])
+            cs = list(self.chars)
+            i, j = 0, len(cs)
+            if name in ("strip", "lstrip"):
+                while i < j and I.branch(SV(pred(cs[i]), "bool"), "strip-leading"):
+                    i += 1
+            if name in ("strip", "rstrip"):
+                while j > i and I.branch(SV(pred(cs[j - 1]), "bool"), "strip-trailing"):
+                    j -= 1
+            return type(self)(cs[i:j]) if type(self) is not CharStr else CharStr(cs[i:j])
         if name == "encode":
             return self
         return NotImplemented
